@@ -1,7 +1,8 @@
 //! C20 harness: polynomial arithmetic (winter_math::polynom) and the serial math utils
 //! (get_power_series, get_power_series_with_offset, add_in_place, mul_acc, batch_inversion).
 //!   c20 corr <seed> <n>      -> lines "<field> <op> <args..> => <impl result>" (protocol: ocaml/c20_driver.ml);
-//!                               stderr: "dist <op>=<count> ... panic=<count> total=<count>"
+//!                               fields f64 f62 f128 (base), q64 q62 q128 (QuadExtension), c64 c62 (CubeExtension);
+//!                               stderr: "dist <field>=<count> ... <op>=<count> ... panic=<count> boundary=<count> total=<count>"
 //!   c20 falsify <seed> <n>   -> JSON lines, one per identity violated (oracle: schoolbook reference code in this
 //!                               file + u128 modular arithmetic; independent of the Coq model and of polynom/*);
 //!                               stderr: "evaluations=<n> failures=<k>"
@@ -49,42 +50,113 @@ impl BF for f128::BaseElement {
 // ================================================================================================
 // correspondence: cases
 // ================================================================================================
-type V = Vec<u128>;
+/// A field of the correspondence: base field or quadratic / cubic extension; elements travel as base coordinates.
+trait CF: FieldElement {
+    /// protocol token: f64 f62 f128 q64 q62 q128 c64 c62
+    const TOKEN: &'static str;
+    /// modulus of the base field
+    const BP: u128;
+    const DEG: usize;
+    fn from_coords(c: &[u128]) -> Self;
+    fn coords(&self) -> Vec<u128>;
+}
+macro_rules! cf_base {
+    ($t:ty) => {
+        impl CF for $t {
+            const TOKEN: &'static str = <$t as BF>::NAME;
+            const BP: u128 = <$t as BF>::P;
+            const DEG: usize = 1;
+            fn from_coords(c: &[u128]) -> Self {
+                <$t as BF>::fu(c[0])
+            }
+            fn coords(&self) -> Vec<u128> {
+                vec![self.tu()]
+            }
+        }
+    };
+}
+cf_base!(f64::BaseElement);
+cf_base!(f62::BaseElement);
+cf_base!(f128::BaseElement);
+macro_rules! cf_quad {
+    ($b:ty, $tok:expr) => {
+        impl CF for QuadExtension<$b> {
+            const TOKEN: &'static str = $tok;
+            const BP: u128 = <$b as BF>::P;
+            const DEG: usize = 2;
+            fn from_coords(c: &[u128]) -> Self {
+                QuadExtension::new(<$b as BF>::fu(c[0]), <$b as BF>::fu(c[1]))
+            }
+            fn coords(&self) -> Vec<u128> {
+                self.to_base_elements().iter().map(|e| e.tu()).collect()
+            }
+        }
+    };
+}
+cf_quad!(f64::BaseElement, "q64");
+cf_quad!(f62::BaseElement, "q62");
+cf_quad!(f128::BaseElement, "q128");
+macro_rules! cf_cube {
+    ($b:ty, $tok:expr) => {
+        impl CF for CubeExtension<$b> {
+            const TOKEN: &'static str = $tok;
+            const BP: u128 = <$b as BF>::P;
+            const DEG: usize = 3;
+            fn from_coords(c: &[u128]) -> Self {
+                CubeExtension::new(<$b as BF>::fu(c[0]), <$b as BF>::fu(c[1]), <$b as BF>::fu(c[2]))
+            }
+            fn coords(&self) -> Vec<u128> {
+                self.to_base_elements().iter().map(|e| e.tu()).collect()
+            }
+        }
+    };
+}
+cf_cube!(f64::BaseElement, "c64");
+cf_cube!(f62::BaseElement, "c62");
 
 #[derive(Clone)]
-enum Op {
-    Eval(V, u128),
-    EvalMany(V, V),
-    Add(V, V),
-    Sub(V, V),
-    Mul(V, V),
-    MulByScalar(V, u128),
-    Div(V, V),
-    SynDiv(V, usize, u128),
-    SynDivInPlace(V, usize, u128),
-    SynDivRoots(V, V),
-    DegreeOf(V),
-    Rlz(V),
-    FromRoots(V),
-    Interp(V, V, bool),
+enum Op<C> {
+    Eval(Vec<C>, C),
+    EvalMany(Vec<C>, Vec<C>),
+    Add(Vec<C>, Vec<C>),
+    Sub(Vec<C>, Vec<C>),
+    Mul(Vec<C>, Vec<C>),
+    MulByScalar(Vec<C>, C),
+    Div(Vec<C>, Vec<C>),
+    SynDiv(Vec<C>, usize, C),
+    SynDivInPlace(Vec<C>, usize, C),
+    SynDivRoots(Vec<C>, Vec<C>),
+    DegreeOf(Vec<C>),
+    Rlz(Vec<C>),
+    FromRoots(Vec<C>),
+    Interp(Vec<C>, Vec<C>, bool),
     /// N, nx, ny, xs_flat, ys_flat
-    InterpBatch(usize, usize, usize, V, V),
-    Pow(u128, usize),
-    PowOff(u128, u128, usize),
-    AddInPlace(V, V),
-    MulAcc(V, V, u128),
-    BatchInv(V),
+    InterpBatch(usize, usize, usize, Vec<C>, Vec<C>),
+    Pow(C, usize),
+    PowOff(C, C, usize),
+    AddInPlace(Vec<C>, Vec<C>),
+    MulAcc(Vec<C>, Vec<C>, C),
+    BatchInv(Vec<C>),
 }
 
-fn hv(v: &[u128]) -> String {
-    if v.is_empty() {
-        "-".into()
-    } else {
-        v.iter().map(|x| format!("{:x}", x)).collect::<Vec<_>>().join(",")
+/// element: base coordinates in hex joined by ':'
+fn se<C: CF>(e: &C) -> String {
+    e.coords().iter().map(|x| format!("{:x}", x)).collect::<Vec<_>>().join(":")
+}
+fn poly_str<C: CF>(v: &[C]) -> String {
+    v.iter().map(se).collect::<Vec<_>>().join(",")
+}
+fn sv<C: CF>(v: &[C]) -> String {
+    if v.is_empty() { "-".into() } else { poly_str(v) }
+}
+fn rv<C: CF>(r: Result<Vec<C>, String>) -> String {
+    match r {
+        Ok(v) => sv(&v),
+        Err(_) => "panic".into(),
     }
 }
 
-impl Op {
+impl<C: CF> Op<C> {
     fn name(&self) -> &'static str {
         match self {
             Op::Eval(..) => "eval",
@@ -113,255 +185,210 @@ impl Op {
     fn args(&self) -> String {
         let dbg = cfg!(debug_assertions) as u8;
         match self {
-            Op::Eval(p, x) => format!("{} {:x}", hv(p), x),
-            Op::EvalMany(p, xs) => format!("{} {}", hv(p), hv(xs)),
+            Op::Eval(p, x) => format!("{} {}", sv(p), se(x)),
+            Op::EvalMany(p, xs) => format!("{} {}", sv(p), sv(xs)),
             Op::Add(a, b) | Op::Sub(a, b) | Op::Mul(a, b) | Op::Div(a, b) | Op::AddInPlace(a, b) | Op::SynDivRoots(a, b) => {
-                format!("{} {}", hv(a), hv(b))
+                format!("{} {}", sv(a), sv(b))
             }
-            Op::MulByScalar(p, k) => format!("{} {:x}", hv(p), k),
-            Op::SynDiv(p, a, b) | Op::SynDivInPlace(p, a, b) => format!("{} {} {:x}", hv(p), a, b),
-            Op::DegreeOf(p) | Op::Rlz(p) | Op::FromRoots(p) | Op::BatchInv(p) => hv(p),
-            Op::Interp(xs, ys, rlz) => format!("{} {} {} {}", dbg, hv(xs), hv(ys), *rlz as u8),
-            Op::InterpBatch(n, nx, ny, xs, ys) => format!("{} {} {} {} {} {}", dbg, n, nx, ny, hv(xs), hv(ys)),
-            Op::Pow(b, n) => format!("{:x} {}", b, n),
-            Op::PowOff(b, s, n) => format!("{:x} {:x} {}", b, s, n),
-            Op::MulAcc(a, b, c) => format!("{} {} {:x}", hv(a), hv(b), c),
+            Op::MulByScalar(p, k) => format!("{} {}", sv(p), se(k)),
+            Op::SynDiv(p, a, b) | Op::SynDivInPlace(p, a, b) => format!("{} {} {}", sv(p), a, se(b)),
+            Op::DegreeOf(p) | Op::Rlz(p) | Op::FromRoots(p) | Op::BatchInv(p) => sv(p),
+            Op::Interp(xs, ys, rlz) => format!("{} {} {} {}", dbg, sv(xs), sv(ys), *rlz as u8),
+            Op::InterpBatch(n, nx, ny, xs, ys) => format!("{} {} {} {} {} {}", dbg, n, nx, ny, sv(xs), sv(ys)),
+            Op::Pow(b, n) => format!("{} {}", se(b), n),
+            Op::PowOff(b, s, n) => format!("{} {} {}", se(b), se(s), n),
+            Op::MulAcc(a, b, c) => format!("{} {} {}", sv(a), sv(b), se(c)),
         }
     }
 }
 
-fn vf<F: BF>(v: &[u128]) -> Vec<F> {
-    v.iter().map(|&x| F::fu(x)).collect()
-}
-fn sv<F: BF>(v: &[F]) -> String {
-    if v.is_empty() {
-        "-".into()
-    } else {
-        v.iter().map(|e| format!("{:x}", e.tu())).collect::<Vec<_>>().join(",")
-    }
-}
-fn rv<F: BF>(r: Result<Vec<F>, String>) -> String {
-    match r {
-        Ok(v) => sv(&v),
-        Err(_) => "panic".into(),
-    }
-}
-
-fn interp_batch_n<F: BF, const N: usize>(nx: usize, ny: usize, xs: &[u128], ys: &[u128]) -> String {
-    let xa: Vec<[F; N]> = (0..nx).map(|i| core::array::from_fn(|j| F::fu(xs[i * N + j]))).collect();
-    let ya: Vec<[F; N]> = (0..ny).map(|i| core::array::from_fn(|j| F::fu(ys[i * N + j]))).collect();
-    match catch(AssertUnwindSafe(|| polynom::interpolate_batch::<F, N>(&xa, &ya))) {
+fn interp_batch_n<C: CF, const N: usize>(nx: usize, ny: usize, xs: &[C], ys: &[C]) -> String {
+    let xa: Vec<[C; N]> = (0..nx).map(|i| core::array::from_fn(|j| xs[i * N + j])).collect();
+    let ya: Vec<[C; N]> = (0..ny).map(|i| core::array::from_fn(|j| ys[i * N + j])).collect();
+    match catch(AssertUnwindSafe(|| polynom::interpolate_batch::<C, N>(&xa, &ya))) {
         Ok(v) if v.is_empty() => "-".into(),
-        Ok(v) => v
-            .iter()
-            .map(|p| p.iter().map(|e| format!("{:x}", e.tu())).collect::<Vec<_>>().join(","))
-            .collect::<Vec<_>>()
-            .join(";"),
+        Ok(v) => v.iter().map(|p| poly_str(p)).collect::<Vec<_>>().join(";"),
         Err(_) => "panic".into(),
     }
 }
 
 /// calls the real crate function; every call runs under `catch`
-fn exec<F: BF>(op: &Op) -> String {
+fn exec<C: CF>(op: &Op<C>) -> String {
     macro_rules! c {
         ($e:expr) => {
             catch(AssertUnwindSafe(|| $e))
         };
     }
     match op {
-        Op::Eval(p, x) => {
-            let (p, x) = (vf::<F>(p), F::fu(*x));
-            match c!(polynom::eval(&p, x)) {
-                Ok(v) => format!("{:x}", v.tu()),
-                Err(_) => "panic".into(),
-            }
-        }
-        Op::EvalMany(p, xs) => {
-            let (p, xs) = (vf::<F>(p), vf::<F>(xs));
-            rv(c!(polynom::eval_many(&p, &xs)))
-        }
-        Op::Add(a, b) => {
-            let (a, b) = (vf::<F>(a), vf::<F>(b));
-            rv(c!(polynom::add(&a, &b)))
-        }
-        Op::Sub(a, b) => {
-            let (a, b) = (vf::<F>(a), vf::<F>(b));
-            rv(c!(polynom::sub(&a, &b)))
-        }
-        Op::Mul(a, b) => {
-            let (a, b) = (vf::<F>(a), vf::<F>(b));
-            rv(c!(polynom::mul(&a, &b)))
-        }
-        Op::MulByScalar(p, k) => {
-            let (p, k) = (vf::<F>(p), F::fu(*k));
-            rv(c!(polynom::mul_by_scalar(&p, k)))
-        }
-        Op::Div(a, b) => {
-            let (a, b) = (vf::<F>(a), vf::<F>(b));
-            rv(c!(polynom::div(&a, &b)))
-        }
-        Op::SynDiv(p, a, b) => {
-            let (p, b) = (vf::<F>(p), F::fu(*b));
-            rv(c!(polynom::syn_div(&p, *a, b)))
-        }
-        Op::SynDivInPlace(p, a, b) => {
-            let (p, b) = (vf::<F>(p), F::fu(*b));
-            rv(c!({
-                let mut q = p.clone();
-                polynom::syn_div_in_place(&mut q, *a, b);
-                q
-            }))
-        }
-        Op::SynDivRoots(p, roots) => {
-            let (p, roots) = (vf::<F>(p), vf::<F>(roots));
-            rv(c!({
-                let mut q = p.clone();
-                polynom::syn_div_roots_in_place(&mut q, &roots);
-                q
-            }))
-        }
-        Op::DegreeOf(p) => {
-            let p = vf::<F>(p);
-            match c!(polynom::degree_of(&p)) {
-                Ok(d) => format!("{}", d),
-                Err(_) => "panic".into(),
-            }
-        }
-        Op::Rlz(p) => {
-            let p = vf::<F>(p);
-            rv(c!(polynom::remove_leading_zeros(&p)))
-        }
-        Op::FromRoots(xs) => {
-            let xs = vf::<F>(xs);
-            rv(c!(polynom::poly_from_roots(&xs)))
-        }
-        Op::Interp(xs, ys, rlz) => {
-            let (xs, ys) = (vf::<F>(xs), vf::<F>(ys));
-            rv(c!(polynom::interpolate(&xs, &ys, *rlz)))
-        }
+        Op::Eval(p, x) => match c!(polynom::eval(p, *x)) {
+            Ok(v) => se(&v),
+            Err(_) => "panic".into(),
+        },
+        Op::EvalMany(p, xs) => rv(c!(polynom::eval_many(p, xs))),
+        Op::Add(a, b) => rv(c!(polynom::add(a, b))),
+        Op::Sub(a, b) => rv(c!(polynom::sub(a, b))),
+        Op::Mul(a, b) => rv(c!(polynom::mul(a, b))),
+        Op::MulByScalar(p, k) => rv(c!(polynom::mul_by_scalar(p, *k))),
+        Op::Div(a, b) => rv(c!(polynom::div(a, b))),
+        Op::SynDiv(p, a, b) => rv(c!(polynom::syn_div(p, *a, *b))),
+        Op::SynDivInPlace(p, a, b) => rv(c!({
+            let mut q = p.clone();
+            polynom::syn_div_in_place(&mut q, *a, *b);
+            q
+        })),
+        Op::SynDivRoots(p, roots) => rv(c!({
+            let mut q = p.clone();
+            polynom::syn_div_roots_in_place(&mut q, roots);
+            q
+        })),
+        Op::DegreeOf(p) => match c!(polynom::degree_of(p)) {
+            Ok(d) => format!("{}", d),
+            Err(_) => "panic".into(),
+        },
+        Op::Rlz(p) => rv(c!(polynom::remove_leading_zeros(p))),
+        Op::FromRoots(xs) => rv(c!(polynom::poly_from_roots(xs))),
+        Op::Interp(xs, ys, rlz) => rv(c!(polynom::interpolate(xs, ys, *rlz))),
         Op::InterpBatch(n, nx, ny, xs, ys) => match n {
-            0 => interp_batch_n::<F, 0>(*nx, *ny, xs, ys),
-            1 => interp_batch_n::<F, 1>(*nx, *ny, xs, ys),
-            2 => interp_batch_n::<F, 2>(*nx, *ny, xs, ys),
-            3 => interp_batch_n::<F, 3>(*nx, *ny, xs, ys),
-            4 => interp_batch_n::<F, 4>(*nx, *ny, xs, ys),
-            8 => interp_batch_n::<F, 8>(*nx, *ny, xs, ys),
+            0 => interp_batch_n::<C, 0>(*nx, *ny, xs, ys),
+            1 => interp_batch_n::<C, 1>(*nx, *ny, xs, ys),
+            2 => interp_batch_n::<C, 2>(*nx, *ny, xs, ys),
+            3 => interp_batch_n::<C, 3>(*nx, *ny, xs, ys),
+            4 => interp_batch_n::<C, 4>(*nx, *ny, xs, ys),
+            8 => interp_batch_n::<C, 8>(*nx, *ny, xs, ys),
             _ => unreachable!("N not instantiated"),
         },
-        Op::Pow(b, n) => {
-            let b = F::fu(*b);
-            rv(c!(get_power_series(b, *n)))
-        }
-        Op::PowOff(b, s, n) => {
-            let (b, s) = (F::fu(*b), F::fu(*s));
-            rv(c!(get_power_series_with_offset(b, s, *n)))
-        }
-        Op::AddInPlace(a, b) => {
-            let (a, b) = (vf::<F>(a), vf::<F>(b));
-            rv(c!({
-                let mut q = a.clone();
-                add_in_place(&mut q, &b);
-                q
-            }))
-        }
-        Op::MulAcc(a, b, cc) => {
-            let (a, b, cc) = (vf::<F>(a), vf::<F>(b), F::fu(*cc));
-            rv(c!({
-                let mut q = a.clone();
-                mul_acc::<F, F>(&mut q, &b, cc);
-                q
-            }))
-        }
-        Op::BatchInv(v) => {
-            let v = vf::<F>(v);
-            rv(c!(batch_inversion(&v)))
-        }
+        Op::Pow(b, n) => rv(c!(get_power_series(*b, *n))),
+        Op::PowOff(b, s, n) => rv(c!(get_power_series_with_offset(*b, *s, *n))),
+        Op::AddInPlace(a, b) => rv(c!({
+            let mut q = a.clone();
+            add_in_place(&mut q, b);
+            q
+        })),
+        Op::MulAcc(a, b, cc) => rv(c!({
+            let mut q = a.clone();
+            mul_acc::<C, C>(&mut q, b, *cc);
+            q
+        })),
+        Op::BatchInv(v) => rv(c!(batch_inversion(v))),
     }
 }
 
 // ================================================================================================
-// correspondence: generators (u128 residues; the polynomial helpers below use refmath only)
+// correspondence: generators.  Inputs that must be exactly divisible etc. are built with the reference
+// polynomial code of the falsifier section (ref_mul / ref_add / ref_eval / ref_from_roots).
 // ================================================================================================
-struct G {
+struct G<C: CF> {
     r: Rng,
-    p: u128,
+    ph: std::marker::PhantomData<C>,
 }
 
-fn umul(a: &[u128], b: &[u128], p: u128) -> V {
-    if a.is_empty() || b.is_empty() {
-        return vec![];
+impl<C: CF> G<C> {
+    fn new(seed: u64) -> Self {
+        G { r: Rng::new(seed), ph: std::marker::PhantomData }
     }
-    let mut out = vec![0u128; a.len() + b.len() - 1];
-    for (i, x) in a.iter().enumerate() {
-        for (j, y) in b.iter().enumerate() {
-            out[i + j] = addmod(out[i + j], mulmod(*x, *y, p), p);
-        }
+    fn ext(&self) -> bool {
+        C::DEG > 1
     }
-    out
-}
-fn uadd(a: &[u128], b: &[u128], p: u128) -> V {
-    (0..a.len().max(b.len()))
-        .map(|i| addmod(*a.get(i).unwrap_or(&0), *b.get(i).unwrap_or(&0), p))
-        .collect()
-}
-fn ueval(c: &[u128], x: u128, p: u128) -> u128 {
-    c.iter().rev().fold(0u128, |acc, k| addmod(mulmod(acc, x, p), *k, p))
-}
-
-impl G {
-    fn pool(&self) -> [u128; 10] {
-        let p = self.p;
-        [0, 1, 2, p - 1, p - 2, (p - 1) / 2, 3, 5, 7, (p + 1) / 2]
+    /// size cap: `b` for base fields, `e` for extension fields (model arithmetic is 3-9x more expensive there)
+    fn cap(&self, b: u64, e: u64) -> u64 {
+        if self.ext() { e } else { b }
     }
-    fn elem(&mut self) -> u128 {
-        match self.r.below(3) {
-            0 => {
-                let pl = self.pool();
-                *self.r.pick(&pl)
+    fn base_pool(&mut self) -> u128 {
+        let p = C::BP;
+        [0, 1, 2, p - 1, p - 2, (p - 1) / 2, 3, 5, 7, (p + 1) / 2][self.r.below(10) as usize]
+    }
+    fn small(&mut self) -> u128 {
+        let p = C::BP;
+        [0, 1, 2, p - 1][self.r.below(4) as usize]
+    }
+    fn rres(&mut self) -> u128 {
+        self.r.next_u128() % C::BP
+    }
+    /// the base residue v embedded in the field
+    fn k(&self, v: u128) -> C {
+        let mut c = vec![0u128; C::DEG];
+        c[0] = v % C::BP;
+        C::from_coords(&c)
+    }
+    fn m1(&self) -> C {
+        self.k(C::BP - 1)
+    }
+    /// base fields: pool {0,1,2,p-1,p-2,(p-1)/2,..} or a random residue.  Extensions: embedded base elements (zero
+    /// high coordinates), zero low coordinate, tuples over {0,1,2,p-1}, mixed pool/random tuples, random tuples.
+    fn elem(&mut self) -> C {
+        let d = C::DEG;
+        let mut c = vec![0u128; d];
+        if d == 1 {
+            c[0] = if self.r.below(3) == 0 { self.base_pool() } else { self.rres() };
+        } else {
+            match self.r.below(8) {
+                0 => c[0] = self.base_pool(),
+                1 => {
+                    for x in c.iter_mut().skip(1) {
+                        *x = if self.r.chance(1, 2) { self.small() } else { self.rres() };
+                    }
+                }
+                2 => {
+                    for x in c.iter_mut() {
+                        *x = self.small();
+                    }
+                }
+                3 => {
+                    for x in c.iter_mut() {
+                        *x = if self.r.chance(1, 2) { self.base_pool() } else { self.rres() };
+                    }
+                }
+                _ => {
+                    for x in c.iter_mut() {
+                        *x = self.rres();
+                    }
+                }
             }
-            _ => self.r.next_u128() % self.p,
         }
+        C::from_coords(&c)
     }
-    fn nz(&mut self) -> u128 {
+    fn nz(&mut self) -> C {
         loop {
             let e = self.elem();
-            if e != 0 {
+            if e != C::ZERO {
                 return e;
             }
         }
     }
-    fn rnd(&mut self) -> u128 {
-        1 + self.r.next_u128() % (self.p - 1)
+    /// every coordinate random and non-zero
+    fn rnd(&mut self) -> C {
+        let c: Vec<u128> = (0..C::DEG).map(|_| 1 + self.r.next_u128() % (C::BP - 1)).collect();
+        C::from_coords(&c)
     }
     /// `l` coefficients; the `hz` highest are zero (ALL: every one), the `lz` lowest are zero,
     /// the coefficients next to the zero runs are non-zero
-    fn shape(&mut self, l: usize, hz: usize, lz: usize) -> V {
+    fn shape(&mut self, l: usize, hz: usize, lz: usize) -> Vec<C> {
         if hz == ALL || hz >= l {
-            return vec![0; l];
+            return vec![C::ZERO; l];
         }
-        let mut v: V = (0..l).map(|_| self.elem()).collect();
+        let mut v: Vec<C> = (0..l).map(|_| self.elem()).collect();
         let top = l - hz;
         for x in v.iter_mut().skip(top) {
-            *x = 0;
+            *x = C::ZERO;
         }
         v[top - 1] = self.nz();
         for x in v.iter_mut().take(lz.min(top - 1)) {
-            *x = 0;
+            *x = C::ZERO;
         }
         if lz < top - 1 {
             v[lz] = self.nz();
         }
         v
     }
-    fn vec(&mut self, l: usize) -> V {
+    fn vec(&mut self, l: usize) -> Vec<C> {
         self.shape(l, 0, 0)
     }
-    fn nzvec(&mut self, l: usize) -> V {
+    fn nzvec(&mut self, l: usize) -> Vec<C> {
         (0..l).map(|_| self.nz()).collect()
     }
-    /// n pairwise distinct residues; `zero_at`: position that holds 0 (no zero otherwise)
-    fn distinct(&mut self, n: usize, zero_at: Option<usize>) -> V {
-        let mut v: V = Vec::with_capacity(n);
+    /// n pairwise distinct elements; `zero_at`: position that holds 0 (no zero otherwise)
+    fn distinct(&mut self, n: usize, zero_at: Option<usize>) -> Vec<C> {
+        let mut v: Vec<C> = Vec::with_capacity(n);
         while v.len() < n {
             let e = if self.r.chance(1, 4) { self.nz() } else { self.rnd() };
             if !v.contains(&e) {
@@ -370,37 +397,29 @@ impl G {
         }
         if let Some(k) = zero_at {
             if k < n {
-                v[k] = 0;
+                v[k] = C::ZERO;
             }
         }
         v
     }
     /// x^a - b
-    fn xa_minus_b(&self, a: usize, b: u128) -> V {
-        let mut d = vec![0u128; a + 1];
-        d[0] = submod(0, b, self.p);
-        d[a] = 1;
-        d
-    }
-    fn roots_poly(&self, roots: &[u128]) -> V {
-        let mut d = vec![1u128];
-        for r in roots {
-            d = umul(&d, &[submod(0, *r, self.p), 1], self.p);
-        }
+    fn xa_minus_b(&self, a: usize, b: C) -> Vec<C> {
+        let mut d = vec![C::ZERO; a + 1];
+        d[0] = C::ZERO - b;
+        d[a] = C::ONE;
         d
     }
     /// dividend/divisor with deg a = dega, deg b = degb, `pa`/`pb` zero leading coefficients; exact: remainder 0
-    fn div_pair(&mut self, dega: usize, degb: usize, pa: usize, pb: usize, exact: bool) -> (V, V) {
-        let p = self.p;
+    fn div_pair(&mut self, dega: usize, degb: usize, pa: usize, pb: usize, exact: bool) -> (Vec<C>, Vec<C>) {
         let mut b = self.vec(degb + 1);
         let q = self.vec(dega - degb + 1);
-        let mut a = umul(&q, &b, p);
+        let mut a = ref_mul(&q, &b);
         if !exact && degb > 0 {
             let r = self.vec(degb);
-            a = uadd(&a, &r, p);
+            a = ref_add(&a, &r);
         }
-        a.extend(std::iter::repeat(0).take(pa));
-        b.extend(std::iter::repeat(0).take(pb));
+        a.extend(std::iter::repeat(C::ZERO).take(pa));
+        b.extend(std::iter::repeat(C::ZERO).take(pb));
         (a, b)
     }
 }
@@ -411,21 +430,35 @@ const SHAPES: [(usize, usize, usize); 36] = [
     (7, ALL, 0), (8, 0, 0), (8, 1, 1), (8, 2, 2), (8, 2, 0), (8, ALL, 0), (9, 0, 0), (9, 1, 2), (9, 2, 0),
     (9, 0, 1), (63, 0, 0), (63, 1, 0), (64, 0, 0), (64, 2, 1), (64, ALL, 0), (65, 0, 0), (65, 0, 2), (65, 1, 1),
 ];
+const SHAPES_L1: [(usize, usize, usize); 9] =
+    [(0, 0, 0), (1, 0, 0), (2, 1, 0), (3, ALL, 0), (3, 0, 1), (8, 2, 2), (9, 0, 0), (64, 0, 0), (65, 1, 1)];
+const SHAPES_L0: [(usize, usize, usize); 5] = [(0, 0, 0), (2, 1, 0), (3, ALL, 0), (8, 0, 1), (65, 0, 0)];
 
-/// Deterministic enumeration of the boundary classes (independent of n).  `lvl`: 2 = f64 (everything), 1 = f62
-/// (every class, fewer repetitions of the pair/mask enumerations), 0 = f128 (sub-enumeration: the extracted model
-/// is ~4x slower there).  `thorough`: adds the large `mul` / `interpolate` cases.
-fn boundary(g: &mut G, lvl: u8, thorough: bool, out: &mut Vec<Op>) {
-    let p = g.p;
-    let full = lvl >= 1;
-    let top = lvl >= 2;
-    let sh: Vec<(usize, usize, usize)> =
-        SHAPES.iter().enumerate().filter(|(i, s)| full || i % 3 == 0 || s.0 == 0).map(|(_, s)| *s).collect();
-    let xs_cycle = |g: &mut G, i: usize| match i % 6 {
-        0 => 0,
-        1 => 1,
-        2 => p - 1,
-        4 => 2,
+/// keeps the entries of a list of special cases according to the level: everything for lvl >= 1, every other one
+/// for lvl 0
+fn keep(lvl: u8, i: usize) -> bool {
+    lvl >= 1 || i % 2 == 0
+}
+
+/// Deterministic enumeration of the boundary classes (independent of n).
+/// `lvl`: 4 = f64 (everything), 3 = f62 (every class, fewer repetitions of the pair/mask enumerations), 2 = f128
+/// (sub-enumeration: the extracted model is ~4x slower there), 1 = q64 / c64 and 0 = q62 / q128 / c62 (the same classes
+/// with small counts and lengths <= 9, 64/65 only for linear-time operations).
+/// `thorough`: adds the large `mul` / `interpolate` cases (and one 1024-element group for lvl 1).
+fn boundary<C: CF>(g: &mut G<C>, lvl: u8, thorough: bool, out: &mut Vec<Op<C>>) {
+    let full = lvl >= 3;
+    let mid = lvl >= 2;
+    let (zero, one, two, m1) = (C::ZERO, C::ONE, g.k(2), g.m1());
+    let sh: Vec<(usize, usize, usize)> = match lvl {
+        0 => SHAPES_L0.to_vec(),
+        1 => SHAPES_L1.to_vec(),
+        _ => SHAPES.iter().enumerate().filter(|(i, s)| full || i % 3 == 0 || s.0 == 0).map(|(_, s)| *s).collect(),
+    };
+    let xs_cycle = |g: &mut G<C>, i: usize| match i % 6 {
+        0 => zero,
+        1 => one,
+        2 => m1,
+        4 => two,
         _ => g.rnd(),
     };
 
@@ -440,12 +473,12 @@ fn boundary(g: &mut G, lvl: u8, thorough: bool, out: &mut Vec<Op>) {
             let nx = [0usize, 1, 3, 8][(i / 3) % 4];
             let mut xs = g.vec(nx);
             if nx >= 3 {
-                xs[1] = 0;
+                xs[1] = zero;
             }
             out.push(Op::EvalMany(v.clone(), xs));
         }
         if i % 2 == 0 {
-            let k = [0, 1, p - 1, g.rnd()][(i / 2) % 4];
+            let k = [zero, one, m1, g.rnd()][(i / 2) % 4];
             out.push(Op::MulByScalar(v, k));
         }
     }
@@ -458,7 +491,13 @@ fn boundary(g: &mut G, lvl: u8, thorough: bool, out: &mut Vec<Op>) {
         ((8, ALL, 0), (3, 0, 0)),
     ];
     for (i, (sa, sb)) in pairs.iter().enumerate() {
-        if !full && i % 2 == 1 {
+        let take = match lvl {
+            0 => i == 1 || i == 7,
+            1 => [1, 4, 7, 12].contains(&i),
+            2 => i % 2 == 0,
+            _ => true,
+        };
+        if !take {
             continue;
         }
         let a = g.shape(sa.0, sa.1, sa.2);
@@ -468,32 +507,49 @@ fn boundary(g: &mut G, lvl: u8, thorough: bool, out: &mut Vec<Op>) {
         if i == 7 {
             // a - a and a + (-a)
             out.push(Op::Sub(a.clone(), a.clone()));
-            let na: V = a.iter().map(|x| submod(0, *x, p)).collect();
+            let na: Vec<C> = a.iter().map(|x| zero - *x).collect();
             out.push(Op::Add(a, na));
         }
     }
     // ---- mul
-    let s7: &[usize] = if top { &[0, 1, 2, 3, 7, 8, 9] } else if full { &[0, 1, 2, 3, 8, 9] } else { &[0, 1, 2, 3, 8] };
+    let s7: &[usize] = match lvl {
+        4 => &[0, 1, 2, 3, 7, 8, 9],
+        3 => &[0, 1, 2, 3, 8, 9],
+        2 => &[0, 1, 2, 3, 8],
+        1 => &[0, 1, 3, 8],
+        _ => &[0, 1, 3],
+    };
     for &la in s7 {
         for &lb in s7 {
             let (a, b) = (g.vec(la), g.vec(lb));
             out.push(Op::Mul(a, b));
         }
     }
-    for (sa, sb) in [
-        ((3usize, 1usize, 0usize), (3usize, 0usize, 0usize)), ((3, 2, 0), (2, 1, 0)), ((8, ALL, 0), (3, 0, 0)),
-        ((1, ALL, 0), (1, ALL, 0)), ((7, 1, 1), (9, 2, 0)), ((2, 0, 1), (2, 0, 1)),
-    ] {
+    for (i, (sa, sb)) in [
+        ((3usize, 1usize, 0usize), (3usize, 0usize, 0usize)), ((1, ALL, 0), (1, ALL, 0)), ((3, 2, 0), (2, 1, 0)),
+        ((8, ALL, 0), (3, 0, 0)), ((7, 1, 1), (9, 2, 0)), ((2, 0, 1), (2, 0, 1)),
+    ]
+    .into_iter()
+    .enumerate()
+    {
+        if !mid && i >= (if lvl == 1 { 4 } else { 2 }) {
+            continue;
+        }
         let a = g.shape(sa.0, sa.1, sa.2);
         let b = g.shape(sb.0, sb.1, sb.2);
         out.push(Op::Mul(a, b));
     }
     if thorough {
-        for la in [63usize, 64, 65] {
-            for lb in [1usize, 2, 3] {
-                let (a, b) = (g.vec(la), g.vec(lb));
-                out.push(if (la + lb) % 2 == 0 { Op::Mul(a, b) } else { Op::Mul(b, a) });
+        if mid {
+            for la in [63usize, 64, 65] {
+                for lb in [1usize, 2, 3] {
+                    let (a, b) = (g.vec(la), g.vec(lb));
+                    out.push(if (la + lb) % 2 == 0 { Op::Mul(a, b) } else { Op::Mul(b, a) });
+                }
             }
+        } else if lvl == 1 {
+            let (a, b) = (g.vec(64), g.vec(2));
+            out.push(Op::Mul(a, b));
         }
         if full {
             let (a, b) = (g.vec(1025), g.vec(2));
@@ -503,10 +559,11 @@ fn boundary(g: &mut G, lvl: u8, thorough: bool, out: &mut Vec<Op>) {
         }
     }
     // ---- div: valid classes
-    let dd: &[(usize, usize)] = if top {
-        &[(0, 0), (1, 0), (1, 1), (2, 1), (3, 1), (3, 3), (7, 3), (8, 4), (9, 8), (8, 0), (16, 7), (64, 1), (33, 32)]
-    } else {
-        &[(0, 0), (1, 1), (2, 1), (3, 3), (8, 4), (9, 8), (8, 0), (16, 7)]
+    let dd: &[(usize, usize)] = match lvl {
+        4 => &[(0, 0), (1, 0), (1, 1), (2, 1), (3, 1), (3, 3), (7, 3), (8, 4), (9, 8), (8, 0), (16, 7), (64, 1), (33, 32)],
+        3 | 2 => &[(0, 0), (1, 1), (2, 1), (3, 3), (8, 4), (9, 8), (8, 0), (16, 7)],
+        1 => &[(0, 0), (1, 1), (2, 1), (8, 4), (8, 0)],
+        _ => &[(0, 0), (2, 1), (8, 4)],
     };
     for (i, &(da, db)) in dd.iter().enumerate() {
         for exact in [true, false] {
@@ -516,39 +573,49 @@ fn boundary(g: &mut G, lvl: u8, thorough: bool, out: &mut Vec<Op>) {
         }
     }
     {
-        let (a, b) = (g.vec(6), g.vec(6));
-        out.push(Op::Div(a, b)); // same degree, random
+        let mut sp: Vec<Op<C>> = Vec::new();
         let c = g.nz();
-        out.push(Op::Div(vec![0, 0, 0], vec![c])); // all-zero dividend, constant divisor
-        out.push(Op::Div(vec![0], vec![c]));
-        out.push(Op::Div(vec![], vec![c])); // empty dividend: Ok []
-        out.push(Op::Div(vec![], vec![c, 0])); // divisor of degree 0 with a zero leading coefficient
-        let b1 = g.vec(2);
-        out.push(Op::Div(vec![0, 0, 0], b1.clone())); // panic: deg b > deg a (a all-zero)
-        out.push(Op::Div(vec![], b1.clone())); // panic: deg b > deg a (a empty)
         let a = g.vec(4);
-        out.push(Op::Div(a.clone(), vec![])); // panic: b empty
-        out.push(Op::Div(vec![], vec![])); // panic: b empty
-        out.push(Op::Div(a.clone(), vec![0])); // panic: b = [0]
-        out.push(Op::Div(a.clone(), vec![0, 0, 0])); // panic: b all zeros
-        out.push(Op::Div(vec![], vec![0])); // panic
-        out.push(Op::Div(vec![0, 0], vec![0, 0])); // panic
+        let b1 = g.vec(2);
+        sp.push(Op::Div(vec![], vec![c])); // empty dividend: Ok []
+        sp.push(Op::Div(vec![zero, zero, zero], vec![c])); // all-zero dividend, constant divisor
+        sp.push(Op::Div(a.clone(), vec![])); // panic: b empty
+        sp.push(Op::Div(vec![zero], vec![c]));
+        sp.push(Op::Div(a.clone(), vec![zero])); // panic: b = [0]
+        sp.push(Op::Div(vec![], vec![c, zero])); // divisor of degree 0 with a zero leading coefficient
+        sp.push(Op::Div(a.clone(), vec![zero, zero, zero])); // panic: b all zeros
+        sp.push(Op::Div(vec![], vec![])); // panic: b empty
         let b = g.vec(5);
-        out.push(Op::Div(a.clone(), b)); // panic: deg b > deg a
+        sp.push(Op::Div(a.clone(), b)); // panic: deg b > deg a
+        sp.push(Op::Div(vec![zero, zero, zero], b1.clone())); // panic: deg b > deg a (a all-zero)
+        sp.push(Op::Div(vec![], b1.clone())); // panic: deg b > deg a (a empty)
+        sp.push(Op::Div(vec![], vec![zero])); // panic
         let b = g.shape(6, 2, 0);
-        out.push(Op::Div(a.clone(), b)); // len b > len a but deg b = deg a: valid
+        sp.push(Op::Div(a.clone(), b)); // len b > len a but deg b = deg a: valid
+        sp.push(Op::Div(vec![zero, zero], vec![zero, zero])); // panic
         let (a2, b2) = (g.shape(5, 2, 0), g.vec(4));
-        out.push(Op::Div(a2, b2)); // panic: deg a = 2 < deg b = 3 although len a > len b
+        sp.push(Op::Div(a2, b2)); // panic: deg a = 2 < deg b = 3 although len a > len b
+        let (a, b) = (g.vec(6), g.vec(6));
+        sp.push(Op::Div(a, b)); // same degree, random
+        out.extend(sp.into_iter().enumerate().filter(|(i, _)| keep(lvl, *i)).map(|(_, o)| o));
     }
     // ---- syn_div / syn_div_in_place
-    let aa: &[usize] = if full { &[1, 2, 3, 4, 7] } else { &[1, 2, 4] };
+    let aa: &[usize] = match lvl {
+        4 | 3 => &[1, 2, 3, 4, 7],
+        2 | 1 => &[1, 2, 4],
+        _ => &[1, 3],
+    };
     let mut k = 0usize;
     for &a in aa {
         for bk in 0..3 {
-            for len in [a + 1, a + 2, 2 * a + 1] {
+            if lvl == 0 && bk == 1 {
+                continue;
+            }
+            let lens: Vec<usize> = if mid { vec![a + 1, a + 2, 2 * a + 1] } else { vec![a + 1, 2 * a + 1] };
+            for len in lens {
                 let b = match bk {
-                    0 => 1,
-                    1 => p - 1,
+                    0 => one,
+                    1 => m1,
                     _ => g.rnd(),
                 };
                 k += 1;
@@ -556,7 +623,7 @@ fn boundary(g: &mut G, lvl: u8, thorough: bool, out: &mut Vec<Op>) {
                     // exactly divisible by x^a - b
                     let s = g.vec(len - a);
                     let d = g.xa_minus_b(a, b);
-                    umul(&s, &d, p)
+                    ref_mul(&s, &d)
                 } else {
                     g.vec(len)
                 };
@@ -570,23 +637,42 @@ fn boundary(g: &mut G, lvl: u8, thorough: bool, out: &mut Vec<Op>) {
     {
         let pv = g.vec(5);
         let b = g.rnd();
-        for (a, b) in [(0usize, b), (4, b), (5, b), (6, b), (1, 0), (2, 0), (4, 1), (5, 1), (0, 0), (0, 1)] {
-            out.push(Op::SynDiv(pv.clone(), a, b));
-            out.push(Op::SynDivInPlace(pv.clone(), a, b));
+        for (i, (a, b)) in [(0usize, b), (4, b), (5, b), (6, b), (1, zero), (2, zero), (4, one), (5, one), (0, zero), (0, one)]
+            .into_iter()
+            .enumerate()
+        {
+            // base fields: both entry points on every class; extensions: alternate
+            if mid || i % 2 == 0 {
+                out.push(Op::SynDiv(pv.clone(), a, b));
+            }
+            if mid || i % 2 == 1 {
+                out.push(Op::SynDivInPlace(pv.clone(), a, b));
+            }
         }
-        out.push(Op::SynDiv(vec![], 1, b));
-        out.push(Op::SynDivInPlace(vec![], 1, 1));
-        out.push(Op::SynDiv(vec![g.nz()], 1, b));
-        out.push(Op::SynDiv(g.shape(8, 3, 1), 2, b));
-        out.push(Op::SynDivInPlace(g.shape(8, ALL, 0), 3, 1));
+        let sp: Vec<Op<C>> = vec![
+            Op::SynDiv(vec![], 1, b),
+            Op::SynDivInPlace(vec![], 1, one),
+            Op::SynDiv(vec![g.nz()], 1, b),
+            Op::SynDiv(g.shape(8, 3, 1), 2, b),
+            Op::SynDivInPlace(g.shape(8, ALL, 0), 3, one),
+        ];
+        out.extend(sp.into_iter().enumerate().filter(|(i, _)| keep(lvl, *i)).map(|(_, o)| o));
     }
     // ---- syn_div_roots_in_place
-    for m in [1usize, 2, 3] {
+    let ms: &[usize] = match lvl {
+        0 => &[2],
+        1 => &[1, 3],
+        _ => &[1, 2, 3],
+    };
+    for &m in ms {
         for (j, len) in [m + 1, m + 3, 9].into_iter().enumerate() {
+            if !mid && j == 1 {
+                continue;
+            }
             let roots = g.nzvec(m);
             let pv = if (m + j) % 2 == 0 {
                 let s = g.vec(len - m);
-                umul(&s, &g.roots_poly(&roots), p)
+                ref_mul(&s, &ref_from_roots(&roots))
             } else {
                 g.vec(len)
             };
@@ -596,59 +682,71 @@ fn boundary(g: &mut G, lvl: u8, thorough: bool, out: &mut Vec<Op>) {
     {
         let r = g.rnd();
         let pv = g.vec(5);
-        out.push(Op::SynDivRoots(pv.clone(), g.nzvec(4))); // m = len - 1
-        out.push(Op::SynDivRoots(g.vec(8), g.nzvec(7)));
-        out.push(Op::SynDivRoots(pv.clone(), vec![0, r]));
-        out.push(Op::SynDivRoots(pv.clone(), vec![r, 0]));
-        out.push(Op::SynDivRoots(pv.clone(), vec![0, 0]));
-        out.push(Op::SynDivRoots(pv.clone(), vec![0]));
-        out.push(Op::SynDivRoots(pv.clone(), vec![r, r, r]));
-        let d = g.roots_poly(&[r, 0, r]);
+        let d = ref_from_roots(&[r, zero, r]);
         let s = g.vec(4);
-        out.push(Op::SynDivRoots(umul(&s, &d, p), vec![r, 0, r]));
-        out.push(Op::SynDivRoots(pv.clone(), vec![])); // panic: no roots
-        out.push(Op::SynDivRoots(pv.clone(), g.nzvec(5))); // panic: m = len
-        out.push(Op::SynDivRoots(pv.clone(), g.nzvec(6))); // panic: m = len + 1
-        out.push(Op::SynDivRoots(vec![], vec![r])); // panic
-        out.push(Op::SynDivRoots(vec![], vec![])); // panic
-        out.push(Op::SynDivRoots(g.shape(6, ALL, 0), vec![r, 1]));
+        let sp: Vec<Op<C>> = vec![
+            Op::SynDivRoots(pv.clone(), g.nzvec(4)), // m = len - 1
+            Op::SynDivRoots(pv.clone(), vec![]), // panic: no roots
+            Op::SynDivRoots(pv.clone(), vec![zero, r]),
+            Op::SynDivRoots(pv.clone(), g.nzvec(5)), // panic: m = len
+            Op::SynDivRoots(pv.clone(), vec![r, r, r]),
+            Op::SynDivRoots(pv.clone(), vec![r, zero]),
+            Op::SynDivRoots(ref_mul(&s, &d), vec![r, zero, r]),
+            Op::SynDivRoots(pv.clone(), vec![zero, zero]),
+            Op::SynDivRoots(vec![], vec![r]), // panic
+            Op::SynDivRoots(pv.clone(), vec![zero]),
+            Op::SynDivRoots(pv.clone(), g.nzvec(6)), // panic: m = len + 1
+            Op::SynDivRoots(g.vec(8), g.nzvec(7)),
+            Op::SynDivRoots(vec![], vec![]), // panic
+            Op::SynDivRoots(g.shape(6, ALL, 0), vec![r, one]),
+        ];
+        out.extend(sp.into_iter().enumerate().filter(|(i, _)| keep(lvl, *i)).map(|(_, o)| o));
     }
     // ---- batch_inversion
-    let nzc = |g: &mut G, i: usize| match i % 5 {
-        0 => 1,
-        1 => p - 1,
-        4 => 2,
+    let nzc = |g: &mut G<C>, i: usize| match i % 5 {
+        0 => one,
+        1 => m1,
+        4 => two,
         _ => g.rnd(),
     };
     let mut cnt = 0usize;
-    let mut masked = |g: &mut G, l: usize, zero: &dyn Fn(usize) -> bool, out: &mut Vec<Op>| {
-        let v: V = (0..l)
+    let mut masked = |g: &mut G<C>, l: usize, is_zero: &dyn Fn(usize) -> bool, out: &mut Vec<Op<C>>| {
+        let v: Vec<C> = (0..l)
             .map(|i| {
                 cnt += 1;
-                if zero(i) { 0 } else { nzc(g, cnt) }
+                if is_zero(i) { zero } else { nzc(g, cnt) }
             })
             .collect();
         out.push(Op::BatchInv(v));
     };
     out.push(Op::BatchInv(vec![]));
     for l in 1..=4usize {
-        if !top && l == 4 {
-            for mask in [0u32, 1, 8, 9, 6, 15] {
-                masked(g, l, &|i| mask >> i & 1 == 1, out);
-            }
-            continue;
-        }
-        for mask in 0..(1u32 << l) {
+        let masks: Vec<u32> = match (l, lvl) {
+            (4, 4) => (0..16).collect(),
+            (4, 3) | (4, 2) => vec![0, 1, 8, 9, 6, 15],
+            (4, 1) => vec![1, 8, 15],
+            (4, _) => vec![9],
+            (3, 0) | (3, 1) => vec![0, 1, 4, 5, 7],
+            _ => (0..(1u32 << l)).collect(),
+        };
+        for mask in masks {
             masked(g, l, &|i| mask >> i & 1 == 1, out);
         }
     }
-    for z in 0..8usize {
-        masked(g, 8, &|i| i == z, out);
+    for zpos in 0..8usize {
+        if mid || zpos == 0 || zpos == 7 || (lvl == 1 && zpos == 3) {
+            masked(g, 8, &|i| i == zpos, out);
+        }
     }
     masked(g, 8, &|i| i == 0 || i == 7, out);
-    masked(g, 8, &|_| true, out);
-    masked(g, 8, &|_| false, out);
+    if lvl >= 1 {
+        masked(g, 8, &|_| true, out);
+        masked(g, 8, &|_| false, out);
+    }
     for (j, l) in [63usize, 64, 65].into_iter().enumerate() {
+        if lvl == 0 && l != 65 {
+            continue;
+        }
         let rp = g.r.below(l as u64) as usize;
         masked(g, l, &|i| [i == 0, i + 1 == l, i == rp][j], out);
         if full {
@@ -657,54 +755,91 @@ fn boundary(g: &mut G, lvl: u8, thorough: bool, out: &mut Vec<Op>) {
     }
     // ---- get_power_series / get_power_series_with_offset
     for (i, n) in [0usize, 1, 2, 3, 7, 8, 9].into_iter().enumerate() {
-        for (j, b) in [0, 1, 2, p - 1, g.rnd()].into_iter().enumerate() {
-            if full || (i + j) % 2 == 0 {
+        for (j, b) in [zero, one, two, m1, g.rnd()].into_iter().enumerate() {
+            let take = match lvl {
+                0 => (i + j) % 5 == 0,
+                1 => (i + j) % 3 == 0,
+                2 => (i + j) % 2 == 0,
+                _ => true,
+            };
+            if take {
                 out.push(Op::Pow(b, n));
             }
         }
     }
     for n in [63usize, 64, 65] {
-        out.push(Op::Pow(p - 1, n));
-        out.push(Op::Pow(g.rnd(), n));
+        if mid {
+            out.push(Op::Pow(m1, n));
+        }
+        if mid || n == 65 || (lvl == 1 && n == 64) {
+            out.push(Op::Pow(g.rnd(), n));
+        }
     }
-    let bs: [(u128, u128); 7] =
-        [(0, 1), (1, 0), (2, 1), (p - 1, g.rnd()), (g.rnd(), g.rnd()), (g.rnd(), 0), (g.rnd(), 1)];
+    let bs: [(C, C); 7] = [(zero, one), (one, zero), (two, one), (m1, g.rnd()), (g.rnd(), g.rnd()), (g.rnd(), zero), (g.rnd(), one)];
     for (i, n) in [0usize, 1, 2, 3, 8, 9, 64].into_iter().enumerate() {
-        for j in 0..(if full { 3 } else { 2 }) {
+        let reps = match lvl {
+            4 | 3 => 3,
+            2 => 2,
+            1 => 1,
+            _ => (i % 2 == 0) as usize,
+        };
+        for j in 0..reps {
             let (b, s) = bs[(3 * i + j) % 7];
             out.push(Op::PowOff(b, s, n));
         }
     }
-    out.push(Op::PowOff(0, 0, 3));
+    out.push(Op::PowOff(zero, zero, 3));
     // ---- add_in_place / mul_acc
-    for (la, lb) in [(0usize, 0usize), (1, 1), (3, 3), (8, 8), (65, 65), (0, 1), (1, 0), (3, 4), (8, 7)] {
+    for (i, (la, lb)) in [(0usize, 0usize), (1, 1), (3, 3), (8, 8), (65, 65), (0, 1), (1, 0), (3, 4), (8, 7)].into_iter().enumerate() {
+        let take = match lvl {
+            0 => [0, 2, 4, 6].contains(&i),
+            1 => [0, 1, 3, 4, 5, 7].contains(&i),
+            _ => true,
+        };
+        if !take {
+            continue;
+        }
         let (a, b) = (g.vec(la), g.vec(lb));
         out.push(Op::AddInPlace(a.clone(), b.clone()));
-        for (j, c) in [0, 1, g.rnd()].into_iter().enumerate() {
-            if la == lb || j == 2 {
+        for (j, c) in [zero, one, g.rnd()].into_iter().enumerate() {
+            if (la == lb && (lvl >= 1 || i == 2)) || j == 2 {
                 out.push(Op::MulAcc(a.clone(), b.clone(), c));
             }
         }
     }
     // ---- poly_from_roots
     for n in 0..=9usize {
-        out.push(Op::FromRoots(g.vec(n)));
+        let take = match lvl {
+            0 => [0, 1, 3, 9].contains(&n),
+            1 => [0, 1, 2, 3, 8, 9].contains(&n),
+            _ => true,
+        };
+        if take {
+            out.push(Op::FromRoots(g.vec(n)));
+        }
     }
     {
         let (r, s) = (g.rnd(), g.rnd());
-        for v in [vec![0], vec![0, r], vec![r, 0, s], vec![0, 0], vec![r, r], vec![r, s, r], vec![1], vec![p - 1, 1]] {
-            out.push(Op::FromRoots(v));
-        }
+        let sp = vec![vec![zero], vec![r, r], vec![zero, r], vec![r, s, r], vec![r, zero, s], vec![zero, zero], vec![one], vec![m1, one]];
+        out.extend(sp.into_iter().enumerate().filter(|(i, _)| keep(lvl, *i)).map(|(_, v)| Op::FromRoots(v)));
         if full {
             out.push(Op::FromRoots(g.distinct(64, Some(17))));
         }
     }
     // ---- interpolate
     for n in [0usize, 1, 2, 3, 7, 8, 9, 16] {
+        let take = match lvl {
+            0 => [0, 1, 3, 9].contains(&n),
+            1 => [0, 1, 2, 3, 8, 9].contains(&n),
+            _ => true,
+        };
+        if !take {
+            continue;
+        }
         let xs = g.distinct(n, None);
         let ys = g.vec(n);
         out.push(Op::Interp(xs.clone(), ys.clone(), false));
-        if n == 1 || n == 3 || n == 8 {
+        if (n == 1 && lvl >= 1) || n == 3 || (n == 8 && lvl >= 1) {
             out.push(Op::Interp(xs, ys, true));
         }
     }
@@ -718,75 +853,109 @@ fn boundary(g: &mut G, lvl: u8, thorough: bool, out: &mut Vec<Op>) {
         let ys = g.vec(65);
         out.push(Op::Interp(xs, ys, true));
     }
+    if thorough && lvl == 1 {
+        let xs = g.distinct(16, Some(15));
+        let ys = g.vec(16);
+        out.push(Op::Interp(xs, ys, true));
+    }
     for n in [3usize, 8] {
+        if lvl == 0 && n == 8 {
+            continue;
+        }
         for (j, pos) in [0, n / 2, n - 1].into_iter().enumerate() {
             let xs = g.distinct(n, Some(pos));
             let ys = g.vec(n);
             out.push(Op::Interp(xs, ys, j % 2 == 1));
         }
     }
-    out.push(Op::Interp(vec![0], vec![g.rnd()], false));
-    out.push(Op::Interp(vec![0, g.rnd()], g.vec(2), false));
+    out.push(Op::Interp(vec![zero], vec![g.rnd()], false));
+    out.push(Op::Interp(vec![zero, g.rnd()], g.vec(2), false));
     {
         // duplicate xs: no panic; the output is not an interpolant but model and code must agree
         let (r, s) = (g.rnd(), g.rnd());
-        out.push(Op::Interp(vec![r, r], g.vec(2), false));
         out.push(Op::Interp(vec![r, s, r], g.vec(3), true));
-        let mut xs = g.distinct(8, None);
-        xs[5] = xs[2];
-        out.push(Op::Interp(xs, g.vec(8), false));
-        out.push(Op::Interp(vec![0, 0], g.vec(2), false));
+        out.push(Op::Interp(vec![zero, zero], g.vec(2), false));
+        if lvl >= 1 {
+            out.push(Op::Interp(vec![r, r], g.vec(2), false));
+            let mut xs = g.distinct(8, None);
+            xs[5] = xs[2];
+            out.push(Op::Interp(xs, g.vec(8), false));
+        }
         // ys all zero
-        out.push(Op::Interp(g.distinct(3, None), vec![0; 3], false));
-        out.push(Op::Interp(g.distinct(8, Some(3)), vec![0; 8], true));
+        out.push(Op::Interp(g.distinct(3, None), vec![zero; 3], false));
+        if lvl >= 1 {
+            out.push(Op::Interp(g.distinct(8, Some(3)), vec![zero; 8], true));
+        }
         // ys on a low-degree polynomial: remove_leading_zeros matters
         for (n, deg) in [(8usize, 2usize), (3, 0), (16, 5)] {
+            if (!mid && n == 16) || (lvl == 0 && n == 3) {
+                continue;
+            }
             let xs = g.distinct(n, if n == 8 { Some(0) } else { None });
             let c = g.shape(deg + 1, 0, 0);
-            let ys: V = xs.iter().map(|x| ueval(&c, *x, p)).collect();
+            let ys: Vec<C> = xs.iter().map(|x| ref_eval(&c, *x)).collect();
             if n != 16 {
                 out.push(Op::Interp(xs.clone(), ys.clone(), false));
             }
             out.push(Op::Interp(xs, ys, true));
         }
         // length mismatch, both directions
-        for (nx, ny, rlz) in [(3usize, 2usize, false), (2, 3, false), (0, 1, false), (1, 0, false), (8, 9, true), (9, 8, true)] {
-            out.push(Op::Interp(g.distinct(nx, None), g.vec(ny), rlz));
+        for (i, (nx, ny, rlz)) in
+            [(3usize, 2usize, false), (2, 3, false), (0, 1, false), (1, 0, false), (8, 9, true), (9, 8, true)].into_iter().enumerate()
+        {
+            if lvl >= 1 || i < 4 {
+                out.push(Op::Interp(g.distinct(nx, None), g.vec(ny), rlz));
+            }
         }
     }
     // ---- interpolate_batch
     for bn in [1usize, 2, 3, 4, 8] {
         for nx in 0..4usize {
-            if !top && nx == 3 {
+            let take = match lvl {
+                4 => true,
+                3 | 2 => nx < 3,
+                1 => bn != 3 && nx < 3,
+                _ => ((bn == 2 || bn == 4) && nx < 3) || (bn == 8 && nx == 1),
+            };
+            if !take {
                 continue;
             }
-            let xs: V = (0..nx).flat_map(|_| g.distinct(bn, None)).collect();
+            let xs: Vec<C> = (0..nx).flat_map(|_| g.distinct(bn, None)).collect();
             let ys = g.vec(nx * bn);
             out.push(Op::InterpBatch(bn, nx, nx, xs, ys));
         }
     }
     for nx in 0..3usize {
-        out.push(Op::InterpBatch(0, nx, nx, vec![], vec![])); // N = 0: panics once `len % N` is reached
-    }
-    out.push(Op::InterpBatch(0, 1, 0, vec![], vec![]));
-    {
-        let r = g.rnd();
-        out.push(Op::InterpBatch(2, 1, 1, vec![0, r], g.vec(2)));
-        let xs: V = g.distinct(4, Some(3)).into_iter().chain(g.distinct(4, Some(0))).collect();
-        out.push(Op::InterpBatch(4, 2, 2, xs, g.vec(8)));
-        out.push(Op::InterpBatch(1, 2, 2, vec![0, r], g.vec(2)));
-        out.push(Op::InterpBatch(2, 1, 1, vec![r, r], g.vec(2))); // duplicates
-        let mut xs = g.distinct(4, None);
-        xs[3] = xs[1];
-        out.push(Op::InterpBatch(4, 1, 1, xs, g.vec(4)));
-        // nx != ny: debug build panics; release: ys shorter panics by index, ys longer is accepted
-        for (bn, nx, ny) in [(2usize, 1usize, 0usize), (2, 1, 2), (3, 2, 1), (1, 0, 1), (4, 2, 3), (8, 1, 0)] {
-            let xs: V = (0..nx).flat_map(|_| g.distinct(bn, None)).collect();
-            out.push(Op::InterpBatch(bn, nx, ny, xs, g.vec(ny * bn)));
+        if lvl >= 1 || nx < 2 {
+            out.push(Op::InterpBatch(0, nx, nx, vec![], vec![])); // N = 0: panics once `len % N` is reached
         }
     }
+    {
+        let r = g.rnd();
+        let mut sp: Vec<Op<C>> = Vec::new();
+        sp.push(Op::InterpBatch(2, 1, 1, vec![zero, r], g.vec(2)));
+        sp.push(Op::InterpBatch(0, 1, 0, vec![], vec![]));
+        let xs: Vec<C> = g.distinct(4, Some(3)).into_iter().chain(g.distinct(4, Some(0))).collect();
+        sp.push(Op::InterpBatch(4, 2, 2, xs, g.vec(8)));
+        sp.push(Op::InterpBatch(1, 2, 2, vec![zero, r], g.vec(2)));
+        sp.push(Op::InterpBatch(2, 1, 1, vec![r, r], g.vec(2))); // duplicates
+        let mut xs = g.distinct(4, None);
+        xs[3] = xs[1];
+        sp.push(Op::InterpBatch(4, 1, 1, xs, g.vec(4)));
+        // nx != ny: debug build panics; release: ys shorter panics by index, ys longer is accepted
+        for (bn, nx, ny) in [(2usize, 1usize, 0usize), (2, 1, 2), (3, 2, 1), (1, 0, 1), (4, 2, 3), (8, 1, 0)] {
+            let xs: Vec<C> = (0..nx).flat_map(|_| g.distinct(bn, None)).collect();
+            sp.push(Op::InterpBatch(bn, nx, ny, xs, g.vec(ny * bn)));
+        }
+        out.extend(sp.into_iter().enumerate().filter(|(i, _)| keep(lvl, *i)).map(|(_, o)| o));
+    }
     // ---- long inputs, linear-time operations only (few: the extracted model computes on inductive Z)
-    let longs: &[usize] = if full { &[1023, 1024, 1025] } else { &[1025] };
+    let longs: &[usize] = match lvl {
+        4 | 3 => &[1023, 1024, 1025],
+        2 => &[1025],
+        1 if thorough => &[1024],
+        _ => &[],
+    };
     for (i, &l) in longs.iter().enumerate() {
         let hz = [0usize, 1, 2][i % 3];
         let v = g.shape(l, hz, i % 2);
@@ -800,7 +969,7 @@ fn boundary(g: &mut G, lvl: u8, thorough: bool, out: &mut Vec<Op>) {
             1 => {
                 out.push(Op::Rlz(v.clone()));
                 out.push(Op::Add(v.clone(), g.vec(l + 1)));
-                out.push(Op::SynDiv(v.clone(), 3, 1));
+                out.push(Op::SynDiv(v.clone(), 3, one));
                 out.push(Op::PowOff(g.rnd(), g.rnd(), l));
                 out.push(Op::MulAcc(v.clone(), g.vec(l), g.rnd()));
             }
@@ -809,32 +978,33 @@ fn boundary(g: &mut G, lvl: u8, thorough: bool, out: &mut Vec<Op>) {
                 out.push(Op::MulByScalar(v.clone(), g.rnd()));
                 out.push(Op::SynDivInPlace(v.clone(), 1, g.rnd()));
                 out.push(Op::AddInPlace(v.clone(), g.vec(l)));
-                out.push(Op::Pow(2, l));
+                out.push(Op::Pow(two, l));
             }
         }
     }
-    if !full {
+    if lvl == 2 {
         let v = g.vec(1025);
         out.push(Op::SynDivInPlace(v.clone(), 2, g.rnd()));
         out.push(Op::Add(v, g.vec(1023)));
-    } else {
+    } else if full {
         let mut v = g.nzvec(1024);
-        v[0] = 0;
-        v[1023] = 0;
-        v[500] = 0;
+        v[0] = zero;
+        v[1023] = zero;
+        v[500] = zero;
         out.push(Op::BatchInv(v));
         out.push(Op::SynDiv(g.vec(1025), 4, g.rnd()));
     }
 }
 
-fn small_len(g: &mut G) -> usize {
+fn small_len<C: CF>(g: &mut G<C>) -> usize {
+    let m = g.cap(21, 10);
     match g.r.below(20) {
         0 => 64,
         1 => 0,
-        _ => g.r.below(21) as usize,
+        _ => g.r.below(m) as usize,
     }
 }
-fn rshape(g: &mut G, l: usize) -> V {
+fn rshape<C: CF>(g: &mut G<C>, l: usize) -> Vec<C> {
     let hz = match g.r.below(8) {
         0 => 1,
         1 => 2,
@@ -846,8 +1016,7 @@ fn rshape(g: &mut G, l: usize) -> V {
 }
 
 /// mostly-valid structured stream
-fn random_op(g: &mut G) -> Op {
-    let p = g.p;
+fn random_op<C: CF>(g: &mut G<C>) -> Op<C> {
     let l = small_len(g);
     match g.r.below(24) {
         0 => Op::Eval(rshape(g, l), g.elem()),
@@ -864,12 +1033,14 @@ fn random_op(g: &mut G) -> Op {
             Op::Sub(rshape(g, l), rshape(g, lb))
         }
         4 | 5 => {
-            let (la, lb) = (g.r.below(13) as usize, g.r.below(13) as usize);
+            let m = g.cap(13, 9);
+            let (la, lb) = (g.r.below(m) as usize, g.r.below(m) as usize);
             Op::Mul(rshape(g, la), rshape(g, lb))
         }
         6 => Op::MulByScalar(rshape(g, l), g.elem()),
         7 | 8 => {
-            let da = g.r.below(21) as usize;
+            let m = g.cap(21, 10);
+            let da = g.r.below(m) as usize;
             let db = g.r.below(da as u64 + 1) as usize;
             let (pa, pb) = (g.r.below(3) as usize, g.r.below(3) as usize);
             let exact = g.r.chance(1, 2);
@@ -877,24 +1048,26 @@ fn random_op(g: &mut G) -> Op {
             Op::Div(a, b)
         }
         9 | 10 => {
-            let a = 1 + g.r.below(7) as usize;
-            let len = a + 1 + g.r.below(16) as usize;
-            let b = if g.r.chance(1, 4) { 1 } else { g.nz() };
+            let (ma, ml) = (g.cap(7, 4), g.cap(16, 6));
+            let a = 1 + g.r.below(ma) as usize;
+            let len = a + 1 + g.r.below(ml) as usize;
+            let b = if g.r.chance(1, 4) { C::ONE } else { g.nz() };
             let pv = if g.r.chance(1, 2) {
                 let s = g.vec(len - a);
-                umul(&s, &g.xa_minus_b(a, b), p)
+                ref_mul(&s, &g.xa_minus_b(a, b))
             } else {
                 rshape(g, len)
             };
             if g.r.chance(1, 2) { Op::SynDiv(pv, a, b) } else { Op::SynDivInPlace(pv, a, b) }
         }
         11 => {
-            let len = 2 + g.r.below(16) as usize;
+            let ml = g.cap(16, 8);
+            let len = 2 + g.r.below(ml) as usize;
             let m = 1 + g.r.below(len as u64 - 1) as usize;
             let roots = if g.r.chance(1, 4) { g.vec(m) } else { g.nzvec(m) };
             let pv = if g.r.chance(1, 2) {
                 let s = g.vec(len - m);
-                umul(&s, &g.roots_poly(&roots), p)
+                ref_mul(&s, &ref_from_roots(&roots))
             } else {
                 rshape(g, len)
             };
@@ -903,11 +1076,13 @@ fn random_op(g: &mut G) -> Op {
         12 => Op::DegreeOf(rshape(g, l)),
         13 => Op::Rlz(rshape(g, l)),
         14 => {
-            let n = g.r.below(13) as usize;
+            let m = g.cap(13, 10);
+            let n = g.r.below(m) as usize;
             Op::FromRoots(g.vec(n))
         }
         15 | 16 => {
-            let n = g.r.below(13) as usize;
+            let m = g.cap(13, 10);
+            let n = g.r.below(m) as usize;
             let z = if g.r.chance(1, 3) { Some(g.r.below(n.max(1) as u64) as usize) } else { None };
             let mut xs = g.distinct(n, z);
             if n >= 2 && g.r.chance(1, 10) {
@@ -916,7 +1091,7 @@ fn random_op(g: &mut G) -> Op {
             let ys = if g.r.chance(1, 3) {
                 let lc = 1 + g.r.below(n.max(1) as u64) as usize;
                 let c = g.vec(lc);
-                xs.iter().map(|x| ueval(&c, *x, p)).collect()
+                xs.iter().map(|x| ref_eval(&c, *x)).collect()
             } else {
                 g.vec(n)
             };
@@ -924,8 +1099,8 @@ fn random_op(g: &mut G) -> Op {
         }
         17 => {
             let bn = [1usize, 2, 3, 4, 8][g.r.below(5) as usize];
-            let nx = g.r.below(4) as usize;
-            let mut xs: V = Vec::new();
+            let nx = g.r.below(g.cap(4, 3)) as usize;
+            let mut xs: Vec<C> = Vec::new();
             for _ in 0..nx {
                 let z = if g.r.chance(1, 4) { Some(g.r.below(bn as u64) as usize) } else { None };
                 xs.extend(g.distinct(bn, z));
@@ -941,7 +1116,7 @@ fn random_op(g: &mut G) -> Op {
             let mut v = g.nzvec(l);
             for x in v.iter_mut() {
                 if g.r.chance(1, 5) {
-                    *x = 0;
+                    *x = C::ZERO;
                 }
             }
             Op::BatchInv(v)
@@ -950,10 +1125,10 @@ fn random_op(g: &mut G) -> Op {
 }
 
 /// malformed stream: inputs from the rejected classes (and their neighbours)
-fn malformed_op(g: &mut G) -> Op {
-    let l = 1 + g.r.below(10) as usize;
+fn malformed_op<C: CF>(g: &mut G<C>) -> Op<C> {
+    let l = 1 + g.r.below(g.cap(10, 6)) as usize;
     match g.r.below(12) {
-        0 => Op::Div(rshape(g, l), vec![0; g.r.below(4) as usize]),
+        0 => Op::Div(rshape(g, l), vec![C::ZERO; g.r.below(4) as usize]),
         1 => {
             let lb = l + 1 + g.r.below(3) as usize;
             Op::Div(rshape(g, l), g.vec(lb))
@@ -968,7 +1143,7 @@ fn malformed_op(g: &mut G) -> Op {
         }
         4 => {
             let a = 1 + g.r.below(l as u64) as usize;
-            if g.r.chance(1, 2) { Op::SynDiv(g.vec(l + 1), a, 0) } else { Op::SynDivInPlace(g.vec(l + 1), a, 0) }
+            if g.r.chance(1, 2) { Op::SynDiv(g.vec(l + 1), a, C::ZERO) } else { Op::SynDivInPlace(g.vec(l + 1), a, C::ZERO) }
         }
         5 => {
             let m = [0, l - 1, l, l + 1][g.r.below(4) as usize];
@@ -990,7 +1165,7 @@ fn malformed_op(g: &mut G) -> Op {
             let bn = [0usize, 1, 2, 3, 4, 8][g.r.below(6) as usize];
             let nx = g.r.below(3) as usize;
             let ny = g.r.below(4) as usize;
-            let xs: V = (0..nx).flat_map(|_| g.distinct(bn, None)).collect();
+            let xs: Vec<C> = (0..nx).flat_map(|_| g.distinct(bn, None)).collect();
             Op::InterpBatch(bn, nx, ny, xs, g.vec(ny * bn))
         }
         10 => {
@@ -1005,62 +1180,73 @@ fn malformed_op(g: &mut G) -> Op {
 }
 
 struct Dist {
+    fields: BTreeMap<&'static str, usize>,
     ops: BTreeMap<&'static str, usize>,
     panics: usize,
     total: usize,
 }
 
-fn emit_case<F: BF>(op: &Op, dist: &mut Dist) {
-    let res = exec::<F>(op);
+fn emit_case<C: CF>(op: &Op<C>, dist: &mut Dist) {
+    let res = exec::<C>(op);
+    *dist.fields.entry(C::TOKEN).or_insert(0) += 1;
     *dist.ops.entry(op.name()).or_insert(0) += 1;
     dist.total += 1;
     if res == "panic" {
         dist.panics += 1;
     }
-    println!("{} {} {} => {}", F::NAME, op.name(), op.args(), res);
+    println!("{} {} {} => {}", C::TOKEN, op.name(), op.args(), res);
 }
 
 fn corr(seed: u64, n: usize) {
     let thorough = n >= 10000;
-    let mut dist = Dist { ops: BTreeMap::new(), panics: 0, total: 0 };
-    let mut g64 = G { r: Rng::new(seed ^ 0x64), p: M64 };
-    let mut g62 = G { r: Rng::new(seed ^ 0x62_0000), p: M62 };
-    let mut g128 = G { r: Rng::new(seed ^ 0x128_0000_0000), p: M128 };
-    let mut ops = Vec::new();
-    boundary(&mut g64, 2, thorough, &mut ops);
-    for op in &ops {
-        emit_case::<f64::BaseElement>(op, &mut dist);
+    let mut dist = Dist { fields: BTreeMap::new(), ops: BTreeMap::new(), panics: 0, total: 0 };
+    macro_rules! stream {
+        ($t:ty, $lvl:expr, $salt:expr) => {{
+            let mut g = G::<$t>::new(seed ^ $salt);
+            let mut ops = Vec::new();
+            boundary(&mut g, $lvl, thorough, &mut ops);
+            for op in &ops {
+                emit_case(op, &mut dist);
+            }
+            g
+        }};
     }
-    ops.clear();
-    boundary(&mut g62, 1, thorough, &mut ops);
-    for op in &ops {
-        emit_case::<f62::BaseElement>(op, &mut dist);
-    }
-    ops.clear();
-    boundary(&mut g128, 0, thorough, &mut ops);
-    for op in &ops {
-        emit_case::<f128::BaseElement>(op, &mut dist);
-    }
+    // boundary streams: always emitted in full
+    let mut g64 = stream!(f64::BaseElement, 4, 0x64);
+    let mut g62 = stream!(f62::BaseElement, 3, 0x62_0000);
+    let mut g128 = stream!(f128::BaseElement, 2, 0x128_0000_0000);
+    let mut gq64 = stream!(QuadExtension<f64::BaseElement>, 1, 0x2064);
+    let mut gc64 = stream!(CubeExtension<f64::BaseElement>, 1, 0x3064);
+    let mut gq62 = stream!(QuadExtension<f62::BaseElement>, 0, 0x2062);
+    let mut gq128 = stream!(QuadExtension<f128::BaseElement>, 0, 0x2128);
+    let mut gc62 = stream!(CubeExtension<f62::BaseElement>, 0, 0x3062);
     let nb = dist.total;
-    // random structured stream (4/5 of the remaining budget), then malformed stream
+    // random structured stream (4/5 of the remaining budget), then malformed stream; half of it on extension fields
     let rest = n.saturating_sub(nb);
     let mut sel = Rng::new(seed ^ 0xC20);
     for i in 0..rest {
         let malformed = i >= rest - rest / 5;
-        let f = sel.below(5);
-        let g = match f {
-            0 | 1 => &mut g64,
-            2 | 3 => &mut g62,
-            _ => &mut g128,
-        };
-        let op = if malformed { malformed_op(g) } else { random_op(g) };
-        match f {
-            0 | 1 => emit_case::<f64::BaseElement>(&op, &mut dist),
-            2 | 3 => emit_case::<f62::BaseElement>(&op, &mut dist),
-            _ => emit_case::<f128::BaseElement>(&op, &mut dist),
+        macro_rules! one {
+            ($g:expr) => {{
+                let op = if malformed { malformed_op(&mut $g) } else { random_op(&mut $g) };
+                emit_case(&op, &mut dist);
+            }};
+        }
+        match sel.below(14) {
+            0..=2 => one!(g64),
+            3..=5 => one!(g62),
+            6 => one!(g128),
+            7 | 8 => one!(gq64),
+            9 | 10 => one!(gc64),
+            11 => one!(gq62),
+            12 => one!(gq128),
+            _ => one!(gc62),
         }
     }
     let mut s = String::from("dist");
+    for (k, v) in &dist.fields {
+        s.push_str(&format!(" {}={}", k, v));
+    }
     for (k, v) in &dist.ops {
         s.push_str(&format!(" {}={}", k, v));
     }
